@@ -167,16 +167,18 @@ def assumption_event(chk, g, r):
         ev, ctx = build.valpres(pre, post, op="assume", key="assume",
                                 what=what, tgt_syms=tsyms, sym=sym_names,
                                 antisym=kw.get("antisym_tensors", []),
-                                more_sides={"post2": post2})
+                                more_sides={"post2": post2},
+                                alias_cc=bool(kw.get("real")))
     except adapter.Unsupported:
         chk.count("unsupported")
         return
     affected = [ctx.names[n] for n in sym_names +
                 list(kw.get("antisym_tensors", [])) if n in ctx.names]
     if kw.get("real"):
-        # make_real renames complex conjugate amplitudes
-        affected += [v for n, v in ctx.names.items() if n.endswith("cc")
-                     or n + "cc" in ctx.names]
+        # make_real renames complex conjugate amplitudes (the model
+        # identifies t{n}cc with t{n}: alias_cc)
+        affected += [v for n, v in ctx.names.items()
+                     if n[:1] == tn.gs_amplitude and n[1:].isdigit()]
     ev["a"] = {"affected": affected or [-1]}
     chk.add_event(ev)
     chk.add_sample({"call": what[:300], "post": str(post)[:200]})
